@@ -389,7 +389,8 @@ def run_check(mod, tier, seed, replay=None):
         for label, c in mod.cases(tier, rng):
             cases.append(c)
             dist[label] = dist.get(label, 0) + 1
-    lines = [enc_line(c) for c in cases]
+    encode = getattr(mod, "ENCODE", enc_line)   # a module may render its cases for the model itself
+    lines = [encode(c) for c in cases]
 
     # ---- both sides
     impl_lines = run_impl(mod, cases)
@@ -437,9 +438,9 @@ def run_check(mod, tier, seed, replay=None):
             v = mod.oracle(c, dec_line(ol))
             if v is not None and match_known(known, v[0]) is None:
                 cases.append(c)
-                lines.append(enc_line(c))
+                lines.append(encode(c))
                 impl_lines.append(ol)
-                model_lines.append(run_model(pid, [enc_line(c)])[0])
+                model_lines.append(run_model(pid, [encode(c)])[0])
                 failures.append((len(cases) - 1, v))
                 break
 
@@ -464,13 +465,13 @@ def run_check(mod, tier, seed, replay=None):
             if hasattr(mod, "shrink"):
                 c = shrink_case(mod, c, v[0])
                 il = run_impl(mod, [c], parallel=False)[0]
-                ml = run_model(pid, [enc_line(c)])[0]
+                ml = run_model(pid, [encode(c)])[0]
                 v2 = mod.oracle(c, dec_line(il))
                 if v2 is not None:
                     v = v2
             else:
                 il, ml = impl_lines[i], model_lines[i]
-            rep.update({"case": _freeze(c), "case_line": enc_line(c), "implementation": il, "model": ml,
+            rep.update({"case": _freeze(c), "case_line": encode(c), "implementation": il, "model": ml,
                         "signature": v[0], "oracle_verdict": v[1],
                         "how_to_replay": "./check %s --replay %s" % (pid, os.path.relpath(rfile, VERIF))})
             tail = ""
